@@ -299,4 +299,74 @@ func runC15(c *Ctx) {
 		c.Out.Count(fmt.Sprintf("stream-length.%d", n))
 	}
 	coord.ResetLog()
+	runC15TwoCoordinators(c, coord, stubs)
+}
+
+// ---- the reply goes to the coordinator that asked: with sessions to two coordinators open, a phase-two request
+// that arrives on one of them is answered on that one — whatever the xid says about where the transaction
+// began, and whatever the load-balance policy would pick (any node of a coordinator cluster may drive phase two)
+
+func runC15TwoCoordinators(c *Ctx, coord *Coord, stubs map[int]*stubRM) {
+	type dir struct {
+		onB bool   // the request arrives on the second coordinator's session
+		xid string // "A": an xid of the first coordinator's address, "B": of the second's, "C": of a third address
+	}
+	n := 0
+	for _, d := range []dir{{false, "B"}, {true, "A"}, {true, "B"}, {true, "C"}, {false, "C"}, {false, "A"}} {
+		n++
+		cid := fmt.Sprintf("two-%d", n)
+		if !c.Want(cid) {
+			continue
+		}
+		var a *FakeSession
+		for _, s := range coord.Sessions() {
+			if !s.IsClosed() && s.addr == coord.Addr {
+				a = s
+			}
+		}
+		if a == nil {
+			a = coord.OpenSession()
+		}
+		b := coord.OpenSessionAt("10.9.9.9:8091")
+		time.Sleep(30 * time.Millisecond)
+		coord.ResetLog()
+		xid := map[string]string{"A": coord.Addr, "B": "10.9.9.9:8091", "C": "10.7.7.7:8091"}[d.xid] + fmt.Sprintf(":%d", 4000+n)
+		st := stubs[int(branch.BranchTypeTCC)]
+		st.mu.Lock()
+		st.script[fmt.Sprintf("%s/%d", xid, 9)] = fmt.Sprintf("s%d", int(branch.BranchStatusPhasetwoCommitted))
+		st.mu.Unlock()
+		asked := a
+		if d.onB {
+			asked = b
+		}
+		id := int32(880000 + n)
+		crash := safeCall(func() {
+			coord.SendBranchCommit(asked, id, xid, 9, branch.BranchTypeTCC, "res0", []byte("{}"))
+		})
+		answeredOn := 0
+		coord.WaitFor(2*time.Second, func(l []LoggedReq) bool {
+			for _, e := range l {
+				if e.Kind == "BranchCommitResponse" && e.Msg.ID == id {
+					answeredOn = e.Session
+					return true
+				}
+			}
+			return false
+		})
+		c.Out.Case(cid, "C15", "skip", "skip")
+		switch {
+		case crash != "":
+			c.Out.Oracle(cid, false, "crash", crash)
+		case answeredOn == 0:
+			c.Out.Oracle(cid, false, "no_reply", "no BranchCommitResponse with the request's id on any session")
+		case answeredOn != asked.id:
+			c.Out.Oracle(cid, false, "reply_sent_to_another_coordinator", fmt.Sprintf("the request arrived on session %d (%s), the reply went out on session %d; xid %s", asked.id, asked.addr, answeredOn, xid))
+		default:
+			c.Out.Oracle(cid, true, "", "")
+		}
+		c.Out.Tag(cid, "nontrivial=1")
+		c.Out.Count("two-coordinators")
+		b.CloseFromPeer()
+	}
+	coord.ResetLog()
 }
